@@ -19,6 +19,8 @@ func checkC09(c *Ctx) {
 	c.Clause("Allow and its callees write only the bucket looked up for their own key (isolation frame condition)")
 	c.Clause("LoadBalancer.ServeHTTP forwards only after Allow(GetClientIP(r)) returned true; the false edge answers 429, counts it and never reaches the proxy/breaker")
 	c.Clause("a bucket is removed from the map only when it is full after crediting its pending refill (eviction grants no tokens)")
+	c.Clause("eviction removes and marks the bucket under the bucket's own lock and Allow re-checks the mark after locking, so nobody spends from an evicted bucket next to its replacement; the sweep changes no bucket it keeps (no refill, no clock update)")
+	c.Clause("the bucket Allow spends from is the map's shared object (no copy), keyed by the caller's address string as given")
 	c.NotDecided("the sliding-window bound max+floor(T/refill)+1 over arrival histories; idle-refill counts")
 
 	// 1. lock discipline
